@@ -36,7 +36,7 @@ pub mod shim_std {
         pub use ::std::net::*;
     }
     pub mod sync {
-        pub use crate::sync::{RwLock, RwLockReadGuard, RwLockWriteGuard};
+        pub use crate::sync::{Mutex, MutexGuard, RwLock, RwLockReadGuard, RwLockWriteGuard};
         pub use ::std::sync::*;
     }
 }
